@@ -295,6 +295,49 @@ impl CaseIo for Pair {
     }
 }
 
+/// A sequence of inputs judged one after the other on the same thread (history independence: the code under
+/// test is documented as a set of pure functions, so what was parsed or formatted before must not matter).
+#[derive(Clone, Debug)]
+pub struct Chain(pub Vec<Vec<u8>>);
+impl CaseIo for Chain {
+    fn to_json(&self) -> Value {
+        json!({"inputs_hex": self.0.iter().map(|x| hex(x)).collect::<Vec<_>>(), "inputs_esc": self.0.iter().map(|x| esc(x)).collect::<Vec<_>>()})
+    }
+    fn from_json(v: &Value) -> Option<Self> {
+        if let Some(a) = v.get("inputs_hex").and_then(|a| a.as_array()) {
+            let xs: Option<Vec<Vec<u8>>> = a.iter().map(|x| unhex(x.as_str()?)).collect();
+            return Some(Chain(xs?));
+        }
+        // a single input replays as a chain of one
+        Some(Chain(vec![unhex(v.get("input_hex")?.as_str()?)?]))
+    }
+    fn simpler(&self) -> Vec<Self> {
+        let mut out = Vec::new();
+        if self.0.len() > 1 {
+            for i in 0..self.0.len() {
+                let mut c = self.0.clone();
+                c.remove(i);
+                out.push(Chain(c));
+            }
+        }
+        for i in 0..self.0.len() {
+            for x in simpler_bytes(&self.0[i]).into_iter().take(120) {
+                let mut c = self.0.clone();
+                c[i] = x;
+                out.push(Chain(c));
+            }
+        }
+        out
+    }
+    fn digest(&self) -> u64 {
+        let mut h = 0u64;
+        for x in &self.0 {
+            h = h.rotate_left(13) ^ hash_bytes(x);
+        }
+        h
+    }
+}
+
 // ---------------------------------------------------------------------------------------------
 
 #[derive(Clone, Debug)]
